@@ -372,7 +372,13 @@ func (s *strictStub) UnmarshalJSON(data []byte) error {
 }
 
 func (fi *FuncInfo) argWrapper() func(reflect.Value) any {
-	strict := fi.strictFields && fi.Argument != nil && !fi.Argument.Implements(strictType)
+	// Strict checking applies if it was requested explicitly, or if the value
+	// handed to the decoder (the argument, or a pointer to it) implements
+	// DisallowUnknownFields. In the latter case UnmarshalParams would enforce
+	// it on the bare value, but not once the value is hidden inside a stub.
+	strict := fi.Argument != nil && (fi.strictFields ||
+		fi.Argument.Implements(strictType) ||
+		fi.Argument.Kind() != reflect.Ptr && reflect.PointerTo(fi.Argument).Implements(strictType))
 	names := fi.posNames // capture so the wrapper does not pin fi
 	array := len(names) != 0 && fi.allowArray
 	switch {
